@@ -325,6 +325,52 @@ func c14One(c *Ctx, text string, idx int, local map[string]int64) {
 		}
 	}
 	local["histories-ok"]++
+	// (5) the statements returned by Reduce and RewriteFields are new
+	// statements: in-place rewrites applied to them afterwards touch only them,
+	// and rewrites of the receiver do not reach them
+	derive := []struct {
+		name string
+		mk   func(s *influxql.SelectStatement) *influxql.SelectStatement
+	}{
+		{"Reduce(now)", func(s *influxql.SelectStatement) *influxql.SelectStatement {
+			return s.Reduce(&influxql.NowValuer{Now: fixedNow})
+		}},
+		{"Reduce(nil)", func(s *influxql.SelectStatement) *influxql.SelectStatement { return s.Reduce(nil) }},
+		{"RewriteFields", func(s *influxql.SelectStatement) *influxql.SelectStatement {
+			o, err := s.RewriteFields(randomMapper(mon.NewRng(c.Seed, "c14.mapper", idx), refNames(s)))
+			if err != nil {
+				return nil
+			}
+			return o
+		}},
+	}
+	for _, dv := range derive {
+		for _, side := range []string{"result", "receiver"} {
+			st2, _, _, _, _ := parseQuery1(text)
+			_, _, _, a := stmtParts(st2)
+			var b *influxql.SelectStatement
+			mon.Try(func() { b = dv.mk(a) })
+			if b == nil {
+				break
+			}
+			victim, watched := b, a
+			if side == "receiver" {
+				victim, watched = a, b
+			}
+			snap := dumpOf(watched)
+			var hist []string
+			for k, steps := 0, rg.Range(1, 4); k < steps; k++ {
+				m := c14muts[rg.Intn(len(c14muts))]
+				hist = append(hist, m.name)
+				mon.Try(func() { m.run(victim) })
+				if now := dumpOf(watched); now != snap {
+					r.Violation("mutation-visible-on-other-side", det(fmt.Sprintf("%s returned a statement; after %v applied to the %s, the other one changed: %s", dv.name, hist, side, astx.FirstDiff(snap, now))))
+					return
+				}
+			}
+			local["derived-history."+dv.name]++
+		}
+	}
 }
 
 func c14Known(diffPath string) string { return "" }
@@ -341,7 +387,7 @@ var c14Fixed = []string{
 
 func checkC14(c *Ctx) (string, bool, []string) {
 	r := c.R
-	rule := "SELECT statements (bare, inside EXPLAIN and continuous queries) from all clause subsets and random payloads (INTO targets of every form, regex sources, subqueries to depth 3, parenthesised and nested expressions) plus fixed statements with reducible subquery content: Clone / CloneExpr / Measurement.Clone / CloneRegexLiteral compared structurally and walked for shared mutable nodes; every non-mutating operation checked for receiver change; 1-6 in-place operations (RewriteRegexConditions, RewriteDistinct, RewriteTimeFields, SetTimeRange, mutating Rewrite / RewriteExpr, reflective pokes of every string / number / bool / slice slot) applied to the clone and to the original with the other side's dump compared after every step. Non-trivial = statement has a WHERE, GROUP BY, INTO or subquery; distinct by text."
+	rule := "SELECT statements (bare, inside EXPLAIN and continuous queries) from all clause subsets and random payloads (INTO targets of every form, regex sources, subqueries to depth 3, parenthesised and nested expressions) plus fixed statements with reducible subquery content: Clone / CloneExpr / Measurement.Clone / CloneRegexLiteral compared structurally and walked for shared mutable nodes; every non-mutating operation checked for receiver change; 1-6 in-place operations (RewriteRegexConditions, RewriteDistinct, RewriteTimeFields, SetTimeRange, mutating Rewrite / RewriteExpr, reflective pokes of every string / number / bool / slice slot) applied to the clone and to the original with the other side's dump compared after every step; the same histories between a statement and the statements Reduce / RewriteFields return for it. Non-trivial = statement has a WHERE, GROUP BY, INTO or subquery; distinct by text."
 	assume := []string{"*regexp.Regexp and *time.Location are immutable library objects and may be shared", "the unexported GROUP BY interval memo is not part of a statement's observable structure"}
 	if c.Replay != nil {
 		c14One(c, replayStr(c, "input"), replayInt(c, "idx"), map[string]int64{})
